@@ -104,6 +104,10 @@ impl FixtureDatabase {
             if entry.file_type().is_file() {
                 return true;
             }
+            // Never filter the workspace root itself, whatever it is called
+            if entry.depth() == 0 {
+                return true;
+            }
             // For directories, check if we should skip them
             if let Some(dir_name) = entry.file_name().to_str() {
                 !Self::should_skip_directory(dir_name)
@@ -134,8 +138,11 @@ impl FixtureDatabase {
 
             let path = entry.path();
 
-            // Skip files in filtered directories (shouldn't happen with filter_entry, but just in case)
-            if path.components().any(|c| {
+            // Skip files in filtered directories (shouldn't happen with filter_entry, but just in case).
+            // Only components BELOW the workspace root count: a workspace that lives under a
+            // directory called e.g. `build`, `env` or `.cache` must still be scanned.
+            let below_root = path.strip_prefix(root_path).unwrap_or(path);
+            if below_root.components().any(|c| {
                 c.as_os_str()
                     .to_str()
                     .is_some_and(Self::should_skip_directory)
